@@ -75,7 +75,12 @@ def make_spec(g, allow=()):
         tests.append((n, calls))
     stale = []
     for sn in stale_names[:r.choice([0, 0, 1, 2, 3])]:
-        stale.append((r.randint(1, nfiles), sn + b' - ' + str(r.choice([1, 1, 2, 12])).encode(), g.body((), ())))
+        body = g.body((), ())
+        if r.random() < 0.3:
+            # a terminator-LIKE line (longer than ---) followed by a header-looking line: pruning must
+            # skip up to the real terminator, or the residue is parsed as an entry of its own
+            body = b'old\n' + r.choice([b'--- a/file', b'----', b'--- ']) + b'\n[TestGhost - 7]\nresidue'
+        stale.append((r.randint(1, nfiles), sn + b' - ' + str(r.choice([1, 1, 2, 12])).encode(), body))
     # stale slots of a *live* test: ordinals beyond what it addresses now (n+1, 2n, n+5)
     for n, calls in tests:
         if calls and r.random() < 0.3:
